@@ -10,6 +10,7 @@ import (
 	"path/filepath"
 	"strings"
 	"sync/atomic"
+	"time"
 
 	"verif/internal/core"
 )
@@ -293,8 +294,11 @@ func runC20(env *core.Env) {
 		}
 	}
 	b.Run()
+	mergedCov := c20MergedHistories(env)
+	fileCov := c20FileChanges(env, tree, target)
 	validated := conf.run(env)
 	env.Finish("model_checking", map[string]interface{}{
+		"merged_histories": mergedCov, "file_change_sequences": fileCov,
 		"states": int64(len(jobs)) + histStates, "transitions": evals + b.Transitions, "traces_validated_against_impl": validated, "samples": samples.list,
 		"exhaustive": env.TimeLeft() && (b.CapHit == "" || b.CapHit == "max_depth"), "attach_requests": evals, "accepted": accepted, "path_strings": len(paths),
 		"history_states": histStates, "history_depth": b.DepthDone, "outcome_classes": classes.snapshot(), "distinct_outcome_classes": classes.len(),
@@ -315,4 +319,222 @@ func pathClass(raw, clean string) string {
 		return "empty"
 	}
 	return "other"
+}
+
+// c20MergedHistories: logs in which the result events of one task carry every assignment of three timestamps
+// (in order, out of order, equal - what merging two clones' logs or a clock step leaves). Whatever order `show`
+// gives them, compaction and later commands must keep exactly that order, and a further attach goes in front.
+func c20MergedHistories(env *core.Env) map[string]interface{} {
+	base := time.Date(2026, 3, 1, 10, 0, 0, 0, time.UTC)
+	type job struct{ ts [3]int }
+	var jobs []job
+	for a := 0; a < 3; a++ {
+		for b := 0; b < 3; b++ {
+			for c := 0; c < 3; c++ {
+				jobs = append(jobs, job{[3]int{a, b, c}})
+			}
+		}
+	}
+	var compared int64
+	env.Parallel(len(jobs), func(w *core.Worker, i int) {
+		j := jobs[i]
+		l := newSynLog()
+		id, other := core.IDFor(9300), core.IDFor(9301)
+		l.Create(SynItem{ID: id, Title: "carrier"})
+		l.Create(SynItem{ID: other, Title: "other"})
+		for k := 0; k < 3; k++ {
+			ts := base.Add(time.Duration(j.ts[k]) * time.Hour).Format(time.RFC3339Nano)
+			sum := sha256.Sum256([]byte(fmt.Sprintf("content %d", k)))
+			l.ev("result", ts, map[string]interface{}{"task_id": id, "summary": fmt.Sprintf("result %d", k), "path": "a", "sha256_at_attach": hex.EncodeToString(sum[:]), "ts": ts})
+			if k == 1 {
+				l.State(other, "done") // an unrelated event in between
+			}
+		}
+		st := core.Store{".ergo/plans.jsonl": l.Bytes(), ".ergo/lock": nil, "a": []byte("now\n")}
+		order := func() (string, bool) {
+			r := w.Run(core.R(w.Proj, "--json", "show", id))
+			sh, err := core.ParseShow(r.Out)
+			if r.Exit != 0 || err != nil {
+				return r.String(), false
+			}
+			var xs []string
+			for _, x := range sh.Results {
+				xs = append(xs, x.Summary+"|"+x.Sha256[:8]+"|"+x.CreatedAt)
+			}
+			return strings.Join(xs, " ; "), true
+		}
+		st.Materialize(w.Proj)
+		before, ok := order()
+		if !ok || strings.Count(before, ";") != 2 {
+			report(env, "C20 kind=merged-history-results-not-all-shown", fmt.Sprintf("timestamps %v: show gives %s", j.ts, before), mkTrace(st, "three result events", []core.Req{core.R("", "--json", "show", id)}, Assert{Kind: "exit_zero", Step: 1}))
+			return
+		}
+		for _, path := range [][]core.Req{
+			{core.R("", "--json", "compact")},
+			{core.R("", "--json", "compact"), core.R("", "--json", "compact")},
+			{core.R("", "--json", "set", id).In(`{"title":"renamed"}`), core.R("", "--json", "compact")},
+			{core.R("", "--json", "prune", "--yes"), core.R("", "--json", "compact")},
+		} {
+			st.Materialize(w.Proj)
+			for _, r := range path {
+				r.Cwd = w.Proj
+				w.Run(r)
+			}
+			after, ok := order()
+			atomic.AddInt64(&compared, 1)
+			if !ok || after != before {
+				tr := mkTrace(st, "results before vs after", path, Assert{Kind: "show_differs", Step: len(path), Other: 0, Text: id})
+				report(env, "C20 kind=results-reordered-by-compaction", fmt.Sprintf("result events with timestamps (hours) %v in log order: show lists [%s] before and [%s] after %v", j.ts, before, after, shellOf(path)), tr)
+				return
+			}
+		}
+		// a further attach goes in front and leaves the rest as it was
+		st.Materialize(w.Proj)
+		w.Run(core.R(w.Proj, "--json", "set", id).In(`{"result_path":"a","result_summary":"fresh"}`))
+		after, _ := order()
+		atomic.AddInt64(&compared, 1)
+		if i := strings.Index(after, " ; "); !strings.HasPrefix(after, "fresh|") || i < 0 || after[i+3:] != before {
+			report(env, "C20 kind=attach-disturbs-earlier-results", fmt.Sprintf("timestamps %v: before [%s], after one more attach [%s]", j.ts, before, after),
+				mkTrace(st, "attach on a merged history", []core.Req{core.R("", "--json", "set", id).In(`{"result_path":"a","result_summary":"fresh"}`)}, Assert{Kind: "exit_zero", Step: 1}))
+		}
+	})
+	return map[string]interface{}{"logs": len(jobs), "comparisons": compared,
+		"rule": "3 result events of one task with every assignment of 3 timestamps (27: ordered, reversed, equal), an unrelated event in between; result list (summary, sha, created_at) identical before/after compact, compact twice, set+compact, prune+compact; one more attach goes in front"}
+}
+
+func shellOf(rs []core.Req) []string {
+	var out []string
+	for _, r := range rs {
+		out = append(out, r.Shell())
+	}
+	return out
+}
+
+// c20FileChanges: every sequence (depth 4, thorough 5) over {attach a, attach docs/a, rewrite a (same length, mtime
+// kept), rewrite a (other length, mtime kept), rewrite a (new mtime), touch a, compact}; after every step each
+// result shown must carry the hash the file had at the moment of its own attach.
+func c20FileChanges(env *core.Env, tree core.Store, target string) map[string]interface{} {
+	ops := []string{"attach-a", "attach-docs/a", "rewrite-same-len-keep-mtime", "rewrite-other-len-keep-mtime", "rewrite-new-mtime", "touch", "compact"}
+	depth := 4
+	if env.Thorough() {
+		depth = 5
+	}
+	var paths [][]int
+	var rec func(p []int)
+	rec = func(p []int) {
+		if len(p) == depth {
+			paths = append(paths, append([]int{}, p...))
+			return
+		}
+		for i := range ops {
+			rec(append(p, i))
+		}
+	}
+	rec(nil)
+	var steps int64
+	env.Parallel(len(paths), func(w *core.Worker, i int) {
+		if !env.TimeLeft() {
+			return
+		}
+		var names []string
+		for _, oi := range paths[i] {
+			names = append(names, ops[oi])
+		}
+		at, got, want := c20FileSeq(w.Run, w.Proj, tree, target, names)
+		atomic.AddInt64(&steps, int64(len(names)))
+		if at < 0 {
+			return
+		}
+		sig := "C20 kind=sha256-is-not-the-hash-at-attach after=" + names[at]
+		if env.ViolationSeen(sig) {
+			return
+		}
+		art := map[string]interface{}{"kind": "file-changes", "store": tree, "target": target, "ops": names[:at+1]}
+		for k := 0; k < 5; k++ { // confirm with spawned production binaries
+			if a, _, _ := c20FileSeq(core.Spawn{Bin: env.Prod}.Run, w.Proj, tree, target, names[:at+1]); a < 0 {
+				unconfirmed.Add(1)
+				return
+			}
+		}
+		env.Violation(sig, fmt.Sprintf("after %v on task %s (all mtimes set explicitly): show lists %v, hashes at the moments of attach were %v", names[:at+1], target, got, want), art)
+	})
+	return map[string]interface{}{"sequences": len(paths), "depth": depth, "steps_checked": steps, "alphabet": ops,
+		"rule": "every sequence over the alphabet; the model records sha256(file) at each accepted attach; after every step show must list exactly those hashes, newest first"}
+}
+
+// c20FileSeq runs one sequence of file changes and attaches in proj; returns the index of the first step after which
+// show disagrees with the hashes recorded by the model at attach time (-1: none).
+func c20FileSeq(run func(core.Req) core.Res, proj string, tree core.Store, target string, names []string) (int, []string, []string) {
+	t0 := time.Date(2026, 2, 2, 12, 0, 0, 0, time.UTC)
+	tree.Materialize(proj)
+	fa := filepath.Join(proj, "a")
+	os.Chtimes(fa, t0, t0)
+	os.Chtimes(filepath.Join(proj, "docs/a"), t0, t0)
+	var want []string // path|sha at attach, newest first
+	gen := 0
+	for at, op := range names {
+		switch op {
+		case "attach-a", "attach-docs/a":
+			p := strings.TrimPrefix(op, "attach-")
+			c, _ := os.ReadFile(filepath.Join(proj, p))
+			sum := sha256.Sum256(c)
+			r := run(core.R(proj, "--json", "set", target).In(jsonStr(map[string]string{"result_path": p, "result_summary": "s"})))
+			if r.Exit == 0 {
+				want = append([]string{p + "|" + hex.EncodeToString(sum[:])}, want...)
+			}
+		case "rewrite-same-len-keep-mtime", "rewrite-other-len-keep-mtime", "rewrite-new-mtime":
+			gen++
+			fi, _ := os.Stat(fa)
+			content := fmt.Sprintf("content %02d a\n", gen%100) // same length as the fixture's "content of a\n"
+			if op == "rewrite-other-len-keep-mtime" {
+				content += strings.Repeat("+", gen)
+			}
+			os.WriteFile(fa, []byte(content), 0o644)
+			if op == "rewrite-new-mtime" {
+				nt := t0.Add(time.Duration(gen) * time.Minute)
+				os.Chtimes(fa, nt, nt)
+			} else {
+				os.Chtimes(fa, fi.ModTime(), fi.ModTime())
+			}
+		case "touch":
+			gen++
+			nt := t0.Add(time.Duration(gen) * time.Minute)
+			os.Chtimes(fa, nt, nt)
+		case "compact":
+			run(core.R(proj, "--json", "compact"))
+		}
+		sh, err := core.ParseShow(run(core.R(proj, "--json", "show", target)).Out)
+		if err != nil {
+			continue
+		}
+		var got []string
+		for _, x := range sh.Results {
+			got = append(got, x.Path+"|"+x.Sha256)
+		}
+		if strings.Join(got, ";") != strings.Join(want, ";") {
+			return at, got, want
+		}
+	}
+	return -1, nil, nil
+}
+
+func init() {
+	replayers["file-changes"] = func(env *core.Env, raw json.RawMessage) bool {
+		var a struct {
+			Store  map[string][]byte `json:"store"`
+			Target string            `json:"target"`
+			Ops    []string          `json:"ops"`
+		}
+		if err := json.Unmarshal(raw, &a); err != nil {
+			env.HarnessError("bad file-changes replay: %v", err)
+		}
+		proj := filepath.Join(env.Scratch, "replay", "proj")
+		os.MkdirAll(proj, 0o755)
+		fmt.Printf("  steps on task %s: %v\n", a.Target, a.Ops)
+		at, got, want := c20FileSeq(core.Spawn{Bin: env.Prod}.Run, proj, core.Store(a.Store), a.Target, a.Ops)
+		if at >= 0 {
+			fmt.Printf("  show lists %v; hashes at attach were %v\n", got, want)
+		}
+		return at >= 0
+	}
 }
